@@ -4,7 +4,7 @@ import json
 import os
 
 from vlib import common, zw
-from vlib.dwgen import Attr, Die, Unit, Forest, write_object, forest_text, C
+from vlib.dwgen import Attr, Die, Unit, Forest, write_object, forest_text, C, consts
 
 TAGS = ["DW_TAG_subprogram", "DW_TAG_variable", "DW_TAG_structure_type", "DW_TAG_member", "DW_TAG_namespace",
         "DW_TAG_lexical_block", "DW_TAG_base_type", "DW_TAG_typedef", "DW_TAG_formal_parameter", "DW_TAG_enumeration_type",
@@ -41,6 +41,12 @@ def rand_attrs(rng, version, pool):
         ats.append(Attr("DW_AT_const_value", rng.choice(["DW_FORM_sdata", "DW_FORM_udata", "DW_FORM_data2"]), rng.randint(0, 1000)))
     if rng.random() < 0.07 and ats:
         ats.append(Attr(ats[0].name, ats[0].form, ats[0].value))        # the same attribute name twice
+    if rng.random() < 0.03:
+        # now and then a DIE with many attributes
+        for i in range(rng.randint(10, 40)):
+            ats.append(Attr(rng.choice(["DW_AT_decl_line", "DW_AT_decl_column", "DW_AT_byte_size", "DW_AT_bit_size", "DW_AT_language", "DW_AT_accessibility",
+                                        "DW_AT_inline", "DW_AT_virtuality", "DW_AT_MIPS_loop_unroll_factor", "DW_AT_alignment", "DW_AT_ordering"]),
+                            "DW_FORM_data1", rng.randint(0, 9)))
     rng.shuffle(ats)
     return ats
 
@@ -250,6 +256,25 @@ def shaped_forests():
     out.append(("unit-kinds", Forest([ku("DW_TAG_type_unit", b"kt", [Die("DW_TAG_structure_type", [Attr("DW_AT_name", "DW_FORM_string", b"S")], [var(b"m")])]),
                                       cu(b"kc", [var(b"kcv"), imp(kp)]), kp,
                                       ku("DW_TAG_skeleton_unit", b"ks", []), ku("DW_TAG_type_unit", b"kt2", [var(b"t2v")])])))
+    # DIEs with many attributes (readers that fetch them in batches: 15, 16, 17, 31, 32, 33, 48, 70)
+    names = sorted((n for n, v in consts().items() if n.startswith("DW_AT_") and 3 < v < 0x2000 and n not in
+                    ("DW_AT_sibling", "DW_AT_import", "DW_AT_specification", "DW_AT_abstract_origin", "DW_AT_decl_file", "DW_AT_call_file",
+                     "DW_AT_signature", "DW_AT_str_offsets_base")), key=lambda n: (consts()[n], n))
+    names = [n for i, n in enumerate(names) if i == 0 or consts()[names[i - 1]] != consts()[n]]
+    wides = [Die("DW_TAG_variable", [Attr(names[(k * 7 + i) % len(names)], "DW_FORM_data1", (i * 3 + k) & 0xff) for i in range(cnt)], [var(b"in%d" % cnt)] if k % 2 else [])
+             for k, cnt in enumerate((15, 16, 17, 31, 32, 33, 48, 70))]
+    out.append(("wide-dies", Forest([cu(b"wide", wides), cu(b"wide5", [Die("DW_TAG_member", list(w.attrs)) for w in wides[1:4]], 5)])))
+    # units whose last chains of siblings end with the unit instead of with null entries
+    def nest(tagname, depth):
+        d = var(tagname + b"_leaf")
+        for i in range(depth):
+            d = Die("DW_TAG_lexical_block", [Attr("DW_AT_decl_line", "DW_FORM_data1", i)], [var(tagname + b"%d" % i), d])
+        return d
+    ucs = [cu(b"uc0", [var(b"x0"), nest(b"a", 3)]), cu(b"uc1", [nest(b"b", 2)], 5), cu(b"uc2", [var(b"x2"), nest(b"c", 1)], 3), cu(b"uc3", [var(b"last")]),
+           cu(b"uc4", [nest(b"d", 2), Die("DW_TAG_namespace", [], [], flag=True)], 2)]
+    for u, k in zip(ucs, (4, 1, 2, 0, 2)):
+        u.unclosed = k
+    out.append(("unclosed-units", Forest(ucs)))
     # childless DIEs whose abbreviation claims children, with following siblings
     h = Die("DW_TAG_lexical_block", [], [], flag=True)
     out.append(("hollow", Forest([cu(b"h", [var(b"before"), h, var(b"after"), Die("DW_TAG_namespace", [], [Die("DW_TAG_lexical_block", [], [], flag=True), var(b"in_ns")]), var(b"last")])])))
